@@ -521,6 +521,13 @@ def rule_keynorm(ctx):
                     p = w.P.prove_eq0(pr.length - Lin.term(("param", mk)), b.facts)
                     res.append((bool(p), "probe buffer has max_key_len bytes" if p else
                                 "probe buffer of length %s is compared with a stored key of max_key_len bytes" % show_lin(pr.length), fact_strs(b)))
+                    if pr.origin in ("zeros", "empty"):
+                        # a freshly allocated buffer holds the key only after the key's bytes were copied into it
+                        filled = any(x.kind == "slicestore" and x.arr.name == pr.name and isinstance(x.value, Arr) and x.value.origin == "frombuffer"
+                                     for x in on_path(w.events, b))
+                        res.append((filled, "the zero buffer received the key's bytes" if filled else
+                                    "the zero-filled buffer is compared (and stored) without the key's bytes having been copied into it: every short key becomes the all-NUL key",
+                                    fact_strs(b)))
                 else:
                     res.append((None, "probe buffer not understood"))
         if atoms:
@@ -814,7 +821,12 @@ def rule_skip_zero(ctx):
             continue
         # skipped: allowed reasons: count == 0, or key already in the candidate set (counted once)
         rd = [x for x in evs if x.kind == "read" and x.arr.name == "self.lhh_count"]
-        zero = any(w.P.prove_eq0(Lin.term(x.term), le.facts) for x in rd)
+        def _this_cell(x):
+            # the count that is tested is the count of the cell this iteration is at: [outer loop variable, inner loop variable]
+            nums = [i for i in x.idx if isinstance(i, Num)]
+            lv = [lp.varterm for lp in le.loops]
+            return len(nums) == 2 and all(v is not None for v in lv) and nums[0].lin == Lin.term(lv[0]) and nums[1].lin == Lin.term(lv[1])
+        zero = any(_this_cell(x) and w.P.prove_eq0(Lin.term(x.term), le.facts) for x in rd)
         dup = (not zero) and _already_listed(le)
         res.append((bool(zero or dup), "skipped because the count is zero" if zero else "skipped because the key is already a candidate" if dup else
                     "a cell with a non-zero count is skipped without consulting the reader kernel", fact_strs(le)))
